@@ -1,0 +1,98 @@
+//go:build verif
+
+/*
+ Licensed to the Apache Software Foundation (ASF) under one
+ or more contributor license agreements.  See the NOTICE file
+ distributed with this work for additional information
+ regarding copyright ownership.  The ASF licenses this file
+ to you under the Apache License, Version 2.0 (the
+ "License"); you may not use this file except in compliance
+ with the License.  You may obtain a copy of the License at
+
+     http://www.apache.org/licenses/LICENSE-2.0
+
+ Unless required by applicable law or agreed to in writing, software
+ distributed under the License is distributed on an "AS IS" BASIS,
+ WITHOUT WARRANTIES OR CONDITIONS OF ANY KIND, either express or implied.
+ See the License for the specific language governing permissions and
+ limitations under the License.
+*/
+
+package scheduler
+
+import (
+	"github.com/apache/yunikorn-core/pkg/handler"
+	"github.com/apache/yunikorn-core/pkg/rmproxy/rmevent"
+	"github.com/apache/yunikorn-core/pkg/scheduler/objects"
+)
+
+// Verification hooks: only compiled with the "verif" build tag. They add a synchronous entry point to the
+// event handlers and the scheduling cycle; no existing behaviour is changed.
+
+// NewVerifClusterContext creates an empty cluster context that reports to the given handler.
+func NewVerifClusterContext(rmHandler handler.EventHandler) *ClusterContext {
+	cc := newClusterContext()
+	cc.setEventHandler(rmHandler)
+	return cc
+}
+
+// VerifDispatch runs the same handler the scheduler event loops would run for the event, synchronously.
+// Returns false for an event type that none of the loops accepts.
+func (cc *ClusterContext) VerifDispatch(ev interface{}) bool {
+	switch v := ev.(type) {
+	case *rmevent.RMUpdateAllocationEvent:
+		cc.handleRMUpdateAllocationEvent(v)
+	case *rmevent.RMUpdateApplicationEvent:
+		cc.handleRMUpdateApplicationEvent(v)
+	case *rmevent.RMUpdateNodeEvent:
+		cc.handleRMUpdateNodeEvent(v)
+	case *rmevent.RMPartitionsRemoveEvent:
+		cc.removePartitionsByRMID(v)
+	case *rmevent.RMRegistrationEvent:
+		cc.processRMRegistrationEvent(v)
+	case *rmevent.RMConfigUpdateEvent:
+		cc.processRMConfigUpdateEvent(v)
+	default:
+		return false
+	}
+	return true
+}
+
+// VerifSchedule runs one scheduling cycle.
+func (cc *ClusterContext) VerifSchedule() bool {
+	return cc.schedule()
+}
+
+// VerifTriggerQuotaPreemption does what Scheduler.triggerQuotaPreemption does.
+func (cc *ClusterContext) VerifTriggerQuotaPreemption() {
+	for _, psc := range cc.GetPartitionMapClone() {
+		if psc.IsQuotaPreemptionEnabled() {
+			psc.root.TryQuotaPreemption()
+		}
+	}
+}
+
+// VerifCounters returns the partition counters that have no exported reader.
+func (pc *PartitionContext) VerifCounters() (reservations int, placeholderAllocations int) {
+	return pc.getReservationCount(), pc.getPhAllocationCount()
+}
+
+// VerifCleanQueues runs one pass of the partition manager queue cleaner.
+func (pc *PartitionContext) VerifCleanQueues() {
+	pc.partitionManager.cleanQueues(pc.root)
+}
+
+// VerifCleanupExpiredApps runs one pass of the expired application cleaner.
+func (pc *PartitionContext) VerifCleanupExpiredApps() {
+	pc.cleanupExpiredApps()
+}
+
+// VerifRoot returns the root queue.
+func (pc *PartitionContext) VerifRoot() *objects.Queue {
+	return pc.root
+}
+
+// VerifOutstandingRequests runs the outstanding request inspection of the scheduler (autoscaling trigger).
+func (pc *PartitionContext) VerifOutstandingRequests() []*objects.Allocation {
+	return pc.calculateOutstandingRequests()
+}
